@@ -275,6 +275,13 @@ FUNCTIONS['_XLFN._XLWS.FILTER'] = FUNCTIONS['FILTER'] = wrap_func(xfilter)
 
 def args_parser_lookup_array(
         lookup_val, lookup_vec, result_vec=None, match_type=1):
+    if result_vec is None and np.ndim(lookup_vec) == 2 and min(
+            np.shape(lookup_vec)) > 1:  # Array form.
+        arr = np.asarray(lookup_vec, object)
+        if arr.shape[1] > arr.shape[0]:
+            lookup_vec, result_vec = arr[0], arr[-1]
+        else:
+            lookup_vec, result_vec = arr[:, 0], arr[:, -1]
     result_vec = np.ravel(lookup_vec if result_vec is None else result_vec)
     return args_parser_match_array(lookup_val, lookup_vec, match_type) + (
         result_vec,
